@@ -111,7 +111,7 @@ class _HashedHost:
     def matches(self, host: str, addr: str, _ip: Optional[IPAddress]) -> bool:
         """Return whether a host or address matches this host hash"""
 
-        return self._match(host) or self._match(addr)
+        return self._match(host) or (bool(addr) and self._match(addr))
 
 
 class SSHKnownHosts:
